@@ -222,7 +222,7 @@ class Ctx:
             files.append(f)
         return files
 
-    def _validate_one(self, module, cfg, f, timeout, heap_gb, deque, env):
+    def _validate_one(self, module, cfg, f, timeout, heap_gb, deque, env, stuck_is_reject=None):
         out = f + ".out.json"
         e = {"VERIF_TRACE": f, "VERIF_OUT": out}
         if env:
@@ -245,19 +245,30 @@ class Ctx:
                         rj["trace_line"] = json.loads(lines[n - 1])
                     except Exception:
                         rj["trace_line"] = lines[n - 1][:2000]
+        if res["reached"] < res["lines"] and stuck_is_reject:
+            # for search-style trace specs exhaustion without consuming every line is the rejection itself
+            n = res["reached"] + 1
+            rj = {"line": n, "why": stuck_is_reject, "detail": {"first_unexplained_line": n, "of": res["lines"]}}
+            try:
+                rj["trace_line"] = json.loads(lines[n - 1])
+            except Exception:
+                pass
+            res.setdefault("rejects", []).append(rj)
+            res["reached"] = res["lines"]
         if res["reached"] < res["lines"] :
             tail = "\n".join(r["out"].splitlines()[-30:])
             raise Inconclusive("trace validation %s stopped at line %d of %d in %s (spec cannot consume the line):\n%s"
                                % (module, res["reached"], res["lines"], f, tail))
         return res
 
-    def validate(self, module, files, cfg=None, timeout=900, heap_gb=3, deque=False, env=None, par=NCPU, traces_per_file=None):
+    def validate(self, module, files, cfg=None, timeout=900, heap_gb=3, deque=False, env=None, par=NCPU, traces_per_file=None,
+                 stuck_is_reject=None):
         """TLC trace validation of each file (one TLC per file, -workers 1), in parallel."""
         cfg = cfg or module + ".cfg"
         results = []
         t = time.time()
         with cf.ThreadPoolExecutor(max_workers=par) as ex:
-            futs = [ex.submit(self._validate_one, module, cfg, f, timeout, heap_gb, deque, env) for f in files]
+            futs = [ex.submit(self._validate_one, module, cfg, f, timeout, heap_gb, deque, env, stuck_is_reject) for f in files]
             for fu in futs:
                 results.append(fu.result())
         nl = sum(r["lines"] for r in results)
